@@ -10,6 +10,8 @@
 //!
 //! Observation (all through the contract's own queries, plus the raw keys the cw4 spec publishes):
 //!   admin hooks members total  mh=<addr>@<h>:<w|->,…  th=<h>:<w>,…  rawtotal=<n|->  rawmem=<addr>:<w|->,…
+//!   hs=<h>,… (recorded heights)  mlog=<addr>@<h>:<old|->,…  tlog=<h>:<old|->,…  (raw dumps of the two snapshot
+//!   changelogs: with them the observation determines the whole state — model resynchronisation)
 // SCENARIO cw4group crate::scen_cw4group::GroupScen::new()
 // SCENARIO cw4groupwide crate::scen_cw4group::GroupScen::new_wide()
 //
@@ -20,8 +22,9 @@
 use crate::common::*;
 use cosmwasm_std::testing::{mock_env, MockApi, MockQuerier};
 use cosmwasm_std::{
-    from_json, Addr, CosmosMsg, Env, MessageInfo, OwnedDeps, ReplyOn, Response, Storage, Timestamp, WasmMsg,
+    from_json, Addr, CosmosMsg, Env, MessageInfo, Order, OwnedDeps, ReplyOn, Response, Storage, Timestamp, WasmMsg,
 };
+use cw4_group::state::{MEMBERS, TOTAL};
 use cw4::{Member, MemberChangedHookMsg, MemberListResponse, MemberResponse, TotalWeightResponse};
 use cw4_group::contract::{execute, instantiate, query};
 use cw4_group::msg::{ExecuteMsg, InstantiateMsg, QueryMsg};
@@ -175,6 +178,26 @@ impl GroupScen {
                 format!("{}:{}", a, opt_str(&v))
             })
             .collect();
+        // raw dumps of the two snapshot changelogs (by address, then height) and the recorded heights:
+        // with them the observation determines the whole contract state (the Lean driver can rebuild its
+        // model from it after a disagreement)
+        let mut mlog: Vec<(String, u64, Option<u64>)> = MEMBERS
+            .changelog()
+            .range(&self.deps.storage, None, None, Order::Ascending)
+            .filter_map(|r| r.ok())
+            .map(|((a, h), cs)| (a.to_string(), h, cs.old))
+            .collect();
+        mlog.sort();
+        let mlog: Vec<String> = mlog.iter().map(|(a, h, o)| format!("{}@{}:{}", a, h, opt_str(o))).collect();
+        let mut tlog: Vec<(u64, Option<u64>)> = TOTAL
+            .changelog()
+            .range(&self.deps.storage, None, None, Order::Ascending)
+            .filter_map(|r| r.ok())
+            .map(|(h, cs)| (h, cs.old))
+            .collect();
+        tlog.sort();
+        let tlog: Vec<String> = tlog.iter().map(|(h, o)| format!("{}:{}", h, opt_str(o))).collect();
+        let hs: Vec<String> = self.heights.iter().map(|h| h.to_string()).collect();
         let pool_s: Vec<String> = self.pool.iter().map(|a| a.to_string()).collect();
         let pagediff = paging_audit_cursors("list_members", &|c, l| {
             self.q::<MemberListResponse>(QueryMsg::ListMembers { start_after: c, limit: l })
@@ -182,7 +205,7 @@ impl GroupScen {
         }, &pool_s)
         .unwrap_or_default();
         format!(
-            "obs pagediff={} admin={} hooks={} members={} total={} mh={} th={} rawtotal={} rawmem={}",
+            "obs pagediff={} admin={} hooks={} members={} total={} mh={} th={} rawtotal={} rawmem={} hs={} mlog={} tlog={}",
             pagediff,
             opt_str(&self.admin()),
             self.hooks().join(","),
@@ -191,7 +214,10 @@ impl GroupScen {
             mh.join(","),
             th.join(","),
             opt_str(&rawtotal),
-            rawmem.join(",")
+            rawmem.join(","),
+            hs.join(","),
+            mlog.join(","),
+            tlog.join(",")
         )
     }
 
